@@ -174,6 +174,20 @@ Example C12_ex_piece_layout :
   | None => false
   end = true.
 Proof. exact piece_layout_cut. Qed.
+(* "any non-overlapping cell layout": the theorems above do not ask the cells to tile their bounding box, and cells of one
+   shape need not be aligned.  brick_layout = three 2 x 1 bricks at x in [0,2], [2,4] (bottom row) and [1,3] (row above):
+   all cells have the same width and height, each is crossed through the middle by a side of another one, and griddify
+   halves every one of them (six 1 x 1 cells at depth 1) - it is not the identity on equal-shaped cells *)
+Example C12_ex_brick_layout :
+  forallb (fun c => Qceqb (rw (crect c)) (qc 2 1) && Qceqb (rh (crect c)) (qc 1 1)) brick_layout = true /\
+  match griddify_cells (qc 1 1048576) (qc 1 100) brick_layout with
+  | Some new => has_box 0 0 (qc 1 1) (qc 1 1) new && has_box (qc 1 1) 0 (qc 2 1) (qc 1 1) new &&
+                has_box (qc 2 1) 0 (qc 3 1) (qc 1 1) new && has_box (qc 3 1) 0 (qc 4 1) (qc 1 1) new &&
+                has_box (qc 1 1) (qc 1 1) (qc 2 1) (qc 2 1) new && has_box (qc 2 1) (qc 1 1) (qc 3 1) (qc 2 1) new &&
+                Nat.eqb (List.length new) 6 && forallb (fun c => Nat.eqb (cdepth c) 1) new
+  | None => false
+  end = true.
+Proof. exact brick_layout_cut. Qed.
 
 (* a refused cut strictly inside a cell is a sliver cut: one piece would be no thicker than q times
    the cell's other side *)
